@@ -89,7 +89,7 @@ struct Pr<'a> {
 fn is_simple(s: &Stmt) -> bool {
     matches!(
         s,
-        Stmt::Assign(..) | Stmt::Print(..) | Stmt::Read(..) | Stmt::Goto(..) | Stmt::Gosub(..) | Stmt::Return | Stmt::CallSub(..) | Stmt::Resume(..) | Stmt::ResumeLabel(..) | Stmt::OnErrorGoto(..)
+        Stmt::Assign(..) | Stmt::Print(..) | Stmt::Read(..) | Stmt::Goto(..) | Stmt::Gosub(..) | Stmt::Return | Stmt::CallSub(..) | Stmt::Resume(..) | Stmt::ResumeLabel(..) | Stmt::OnErrorGoto(..) | Stmt::Raw(..)
     )
 }
 
